@@ -1148,6 +1148,61 @@ def boundary_probe(res: OracleResult, hist: Hist, rng: random.Random, n: int) ->
                                             {'kind': 'boundary-rsa'}))
 
 
+def oracle_listener_sequence(ctx: Ctx, res: OracleResult, hist: Hist) -> None:
+    """Successive connections to ONE listener (its options object, hence its host key pairs, are shared): for every
+    connection the algorithm named in the host key signature must be the host key algorithm that connection
+    negotiated (first on the client's list that the server offers), whatever earlier connections negotiated."""
+    from asyncssh.packet import SSHPacket
+    rng = ctx.subrng('oracle-listener')
+    rsa = asyncssh.generate_private_key('ssh-rsa', key_size=2048)
+    lists = [['rsa-sha2-256'], ['ssh-rsa'], ['rsa-sha2-512', 'ssh-rsa'], ['ssh-rsa', 'rsa-sha2-256'], ['rsa-sha2-512'],
+             ['ssh-rsa'], ['rsa-sha2-256', 'rsa-sha2-512'], ['ssh-rsa', 'rsa-sha2-512']]
+    for _ in range(ctx.n(4, 24)):
+        lists.append(rng.sample(['ssh-rsa', 'rsa-sha2-256', 'rsa-sha2-512'], rng.randint(1, 3)))
+
+    def namelist(pk: Any) -> List[str]:
+        return [x.decode() for x in pk.get_namelist()]
+
+    async def go() -> List[Tuple[List[str], Optional[str], Optional[str], str]]:
+        out = []
+        sopts = await pair.make_server_options(server_host_keys=[rsa], kex_algs=['curve25519-sha256'])
+        for algs in lists:
+            with capture.PacketTap() as tap:
+                try:
+                    c, s, hub = await asyncio.wait_for(pair.make_pair(
+                        server_opts=dict(shared_options=sopts),
+                        client_opts=dict(server_host_key_algs=algs, kex_algs=['curve25519-sha256'])), 20)
+                except Exception as e:
+                    out.append((algs, None, None, type(e).__name__))
+                    continue
+                negotiated = sigalg = None
+                for _q, p in tap.sent.get(id(s), []):
+                    if p[:1] == b'\x14' and negotiated is None:           # server KEXINIT
+                        pk = SSHPacket(p[17:])
+                        namelist(pk)
+                        offered = namelist(pk)
+                        negotiated = next((a for a in algs if a in offered), None)
+                    if p[:1] == b'\x1f' and sigalg is None:               # KEX_ECDH_REPLY: K_S, Q_S, signature
+                        pk = SSHPacket(p[1:])
+                        pk.get_string()
+                        pk.get_string()
+                        sigalg = SSHPacket(pk.get_string()).get_string().decode()
+                out.append((algs, negotiated, sigalg, 'ok'))
+                c.abort()
+                await pair.settle(5)
+        return out
+    for algs, negotiated, sigalg, status in pair.run(go(), timeout=600, sync_executor=True):
+        res.evaluations += 1
+        hist.hit(f'listener-seq:{status}')
+        if status == 'ok' and negotiated is not None and sigalg != negotiated:
+            res.failures.append(Failure(
+                'host-key-signature-algorithm-differs-from-negotiated',
+                f'client list {algs}: negotiated host key algorithm {negotiated}, but the exchange hash was signed '
+                f'with {sigalg} (state left by an earlier connection to the same listener) and the handshake completed',
+                {'kind': 'listener-sequence', 'lists': lists[:lists.index(algs) + 1] if algs in lists else lists}))
+    res.nontrivial += len(set(tuple(a) for a in lists))
+
+
 def oracle(ctx: Ctx) -> OracleResult:
     res = OracleResult()
     hist = Hist()
@@ -1245,6 +1300,8 @@ def oracle(ctx: Ctx) -> OracleResult:
                 'retained something different, or completed with different ids/keys/names, or a name that is not the '
                 'first client preference, or an out-of-range DH value not answered with ProtocolError, or two field '
                 'tuples with one hash input; distinct = distinct (method, edit) pairs')
+    oracle_listener_sequence(ctx, res, hist)
+    res.histogram = dict(hist)
     return res
 
 
